@@ -22,7 +22,34 @@ impl HeaderUtils for HeaderView {
 }
 
 use std::cmp::Ordering;
-pub struct SendLastStateProofProcess { pub peer_index: PeerIndex }
+pub struct SendLastStateProofProcess { pub peer_index: PeerIndex, pub protocol: Proto }
+// ---- PoW / continuity slice of the proof handler (variant `powcont`): recording models of the checks it calls
+#[derive(Default)] pub struct Proto;
+pub static mut POW_SEEN: usize = 0;
+pub static mut POW_FIRST: Option<u8> = None;
+pub static mut TAU_FAILED: Option<bool> = None;
+pub static mut TAU_VERDICT: u8 = 0;       // 0 Ok(true), 1 Ok(false), 2 Err
+pub static mut CONT_CALLS: usize = 0;
+pub static mut CONT: [(usize, Option<u8>, Option<u8>); 3] = [(0, None, None); 3];    // (len, first id, last id) of each checked slice
+pub static mut CONT_BAD: usize = usize::MAX;   // which call reports a gap
+impl Proto {
+    /// PoW check: every header it is given is looked at; Err iff one of them fails
+    pub fn check_pow_for_headers<'a, I: Iterator<Item = &'a HeaderView>>(&self, it: I) -> Result<(), Status> {
+        let mut bad = false;
+        for h in it { unsafe { if POW_SEEN == 0 { POW_FIRST = Some(h.id); } POW_SEEN += 1; } if !h.pow_ok { bad = true; } }
+        if bad { Err(StatusCode::InvalidNonce.into()) } else { Ok(()) }
+    }
+}
+#[cfg(pow_cont)] pub fn verify_tau(_se: EpochNumberWithFraction, _sc: u32, _ee: EpochNumberWithFraction, _ec: u32, _tau: u64) -> Result<bool, Status> {
+    unsafe { match TAU_VERDICT { 0 => Ok(true), 1 => Ok(false), _ => Err(StatusCode::InvalidCompactTarget.into()) } }
+}
+#[cfg(pow_cont)] pub(crate) fn check_continuous_headers(headers: &[HeaderView]) -> Result<(), Status> {
+    unsafe {
+        let k = CONT_CALLS; CONT_CALLS += 1;
+        if k < 3 { CONT[k] = (headers.len(), headers.first().map(|h| h.id), headers.last().map(|h| h.id)); }
+        if k == CONT_BAD { Err(StatusCode::InvalidParentBlock.into()) } else { Ok(()) }
+    }
+}
 pub static mut OUT: Option<(Vec<HeaderView>, Vec<HeaderView>)> = None;
 // ---- the total-difficulty check of the proof against the peer's previously proved state (its text is the subject of C14): records its arguments, arbitrary verdict
 pub const TAU: u64 = 2;
@@ -66,6 +93,39 @@ mod harness {
     fn hv(id: u8, number: u64, parent: u8) -> HeaderView { HeaderView { id, number, parent, ..Default::default() } }
     /// a proof WITH SAMPLES from a peer that already holds a proved state is accepted only if the total difficulty of the new last header is consistent with the
     /// previously proved one (verify_total_difficulty on exactly these two end points) - whatever else the response carries (reorg headers in particular)
+    /// every header of the response has its PoW checked; the reorg section (if any) and the last-N section are each checked for continuity; a failure of any of
+    /// them is the handler's answer
+    #[cfg(pow_cont)] #[kani::proof] #[kani::unwind(7)]
+    fn pow_and_continuity() {
+        let r: usize = kani::any(); let sc: usize = kani::any(); let c: usize = kani::any();
+        kani::assume(r <= 2 && sc <= 1 && c >= 1 && c <= 2 && r + sc + c <= 5);
+        let total = r + sc + c;
+        let mut hs = Vec::new(); let mut i = 0;
+        while i < 5 { if i < total { let mut h = hv(i as u8 + 1, kani::any(), kani::any()); h.pow_ok = kani::any(); hs.push(h); } i += 1; }
+        let mut req = any_req(); if kani::any() { req.skip_check_tau(); }
+        unsafe { POW_SEEN = 0; POW_FIRST = None; TAU_FAILED = None; TAU_VERDICT = kani::any(); kani::assume(TAU_VERDICT < 3); CONT_CALLS = 0; CONT_BAD = kani::any(); }
+        let p = SendLastStateProofProcess { peer_index: PeerIndex(0), protocol: Proto };
+        let st = p.pow_cont(hs, r, sc, c, &req);
+        unsafe {
+            let mut all_pow = true; let mut i = 0; while i < 5 { if i < total && !hs.buf[i].pow_ok { all_pow = false; } i += 1; }
+            assert!(POW_SEEN == total && POW_FIRST == Some(1), "SPEC proof handler: the PoW of EVERY header of the response (reorg, sampled and last-N sections) must be checked");
+            if !all_pow { assert!(!st.is_ok() && CONT_CALLS == 0, "SPEC proof handler: a header without valid PoW was not rejected"); return; }
+            let tau_err = !req.if_skip_check_tau() && sc != 0 && TAU_VERDICT == 2;
+            if tau_err { assert!(!st.is_ok(), "SPEC proof handler: the error of verify_tau was dropped"); return; }
+            // continuity: the reorg section [0, r) when present, then the last-N section [r + sc, total)
+            let want_calls = if r != 0 { 2 } else { 1 };
+            let bad = CONT_BAD < want_calls;
+            if st.is_ok() {
+                assert!(CONT_CALLS == want_calls && !bad, "SPEC proof handler: accepted without checking the continuity of the reorg section and of the last-N section");
+                let last_sec = CONT[want_calls - 1];
+                assert!(last_sec == (c, Some((r + sc) as u8 + 1), Some(total as u8)), "SPEC proof handler: the continuity check of the last-N section does not cover exactly the headers after the sampled ones");
+                if r != 0 { assert!(CONT[0] == (r, Some(1), Some(r as u8)), "SPEC proof handler: the continuity check of the reorg section does not cover exactly the reorg headers"); }
+                assert!(TAU_FAILED == Some(!req.if_skip_check_tau() && sc != 0 && TAU_VERDICT == 1), "SPEC proof handler: the tau verdict was not carried on");
+            } else { assert!(bad, "SPEC proof handler: rejected although PoW, tau and continuity all pass"); }
+            kani::cover!(st.is_ok() && r == 2 && sc == 1, "reorg + sampled + last-N accepted");
+            kani::cover!(!st.is_ok() && CONT_BAD == 0 && r != 0 && sc != 0, "gap in the reorg section next to sampled headers rejected");
+        }
+    }
     #[cfg(td_gate)] #[kani::proof] #[kani::unwind(7)]
     fn td_gate_runs() {
         let r: usize = kani::any(); let s: usize = kani::any(); let c: usize = kani::any();
@@ -80,7 +140,7 @@ mod harness {
         if let Some(ps) = peer_state.get_prove_state() { let p = ps.get_last_header(); kani::assume(p.root.td.0.checked_add(p.header.diff).is_some()); }
         let req = any_req();
         unsafe { VTD_CALLS = 0; VTD_ARGS = None; VTD_OK = kani::any(); }
-        let p = SendLastStateProofProcess { peer_index: PeerIndex(0) };
+        let p = SendLastStateProofProcess { peer_index: PeerIndex(0), protocol: Proto };
         let st = p.td_gate(&hs[..], r, s, c, &peer_state, &last, &req);
         unsafe {
             match (s != 0, peer_state.get_prove_state()) {
@@ -98,7 +158,7 @@ mod harness {
             }
         }
     }
-    #[cfg(not(td_gate))] #[kani::proof] #[kani::unwind(7)]
+    #[cfg(not(any(td_gate, pow_cont)))] #[kani::proof] #[kani::unwind(7)]
     fn select_last_headers() {
         let n_blocks: usize = kani::any(); kani::assume(n_blocks >= 1 && n_blocks <= 3);
         let r: usize = kani::any(); let s: usize = kani::any(); let c: usize = kani::any();
@@ -114,7 +174,7 @@ mod harness {
         let mut old = Vec::new(); let mut i = 0; while i < 2 { if i < nold { old.push(hv(kani::any(), kani::any(), kani::any())); } i += 1; }
         let peer_state = if has_prev { PeerState::Ready { last_state: any_ls(), prove_state: ProveState::new_from_request(any_req(), Vec::new(), old) } } else { PeerState::OnlyHasLastState { last_state: any_ls() } };
         let req = any_req();
-        let p = SendLastStateProofProcess { peer_index: PeerIndex(0) };
+        let p = SendLastStateProofProcess { peer_index: PeerIndex(0), protocol: Proto };
         unsafe { OUT = None; }
         let st = p.select(&hs[..], r, s, c, n_blocks, &peer_state, &req);
         if !st.is_ok() {
